@@ -16,6 +16,7 @@ class P(vlib.Prop):
     stages = (
         dict(name="history", cmd="c08", args=lambda t, s: ["-stage", "history"]),
         dict(name="indexcache", cmd="c08", args=lambda t, s: ["-stage", "indexcache"]),
+        dict(name="indexhist", cmd="c08", args=lambda t, s: ["-stage", "indexhist"]),
         dict(name="conc", cmd="c08", race=True, args=lambda t, s: ["-stage", "conc"]),
     )
     assumptions = (
